@@ -390,8 +390,7 @@ Section Full.
                rule_valid expr_ok dur_zero metric_ok lname_ok lvalue_ok tmpl_prom pr = true.
   Proof.
     intros Hn Hg He Hb. rewrite <- (dec_rule_transfer rn Hn).
-    exact (rule_sound plines metric_ok lname_ok lvalue_ok dur_ok expr_ok tmpl_pint tmpl_prom dur_zero str_ok int_ok (fun _ => true)
-             H_str (fun _ _ _ => eq_refl) H_tmpl H_lname_empty H_lvalue_empty H_tmpl_empty lines rn glabels Hg He Hb).
+    eapply (rule_sound plines metric_ok lname_ok lvalue_ok dur_ok expr_ok tmpl_pint tmpl_prom dur_zero str_ok); eauto.
   Qed.
 
   Theorem rule_sound_merge_local rn glabels pre mk mx post t :
